@@ -61,8 +61,10 @@ type fnLocks struct {
 	hasBody     bool
 	// scoped acquirer: the function returns, on every path, a func() that releases everything the path acquired
 	// (`defer dsc.lockWith(other)()`); scopedRel is what a call of the returned function releases
-	scoped    bool
-	scopedRel lockSet
+	scoped        bool
+	scopedRel     lockSet
+	scopedTargets []*ssa.Function // the functions returned as releasers (closures, methods): calling the result calls them
+	scopedDirect  lockSet         // classes released by a returned mutex.Unlock method value
 }
 
 func (ls lockSet) has(i int) bool { return i >= 0 && ls&(1<<uint(i)) != 0 }
@@ -443,16 +445,41 @@ func (lm *LockModel) applyCall(c ssa.CallInstruction, st lstate) lstate {
 	if c.Common().StaticCallee() == nil && !c.Common().IsInvoke() {
 		if g := scopedOrigin(c.Common().Value); g != nil {
 			if gl := lm.fl[g]; gl != nil && gl.scoped {
-				set := gl.scopedRel
-				st.acq &^= set
-				st.rel |= set
-				st.may &^= set
-				st.excl &^= set
+				// calling the returned function = calling the releaser(s) the acquirer can return
+				if gl.scopedDirect != 0 {
+					set := gl.scopedDirect
+					st.acq &^= set
+					st.rel |= set
+					st.may &^= set
+					st.excl &^= set
+				}
+				if len(gl.scopedTargets) > 0 {
+					if out, ok := lm.applyCallees(gl.scopedTargets, st); ok {
+						st = out
+					}
+				}
+				// every return of the acquirer was checked: the function it returns releases what that path acquired, so
+				// nothing the acquirer took can leak once its result has been called
+				st.may &^= gl.scopedRel
 				return st
 			}
 		}
 	}
 	cals := lm.p.Callees(c)
+	out, ok := lm.applyCallees(cals, st)
+	if !ok {
+		return st
+	}
+	if lm.handlerDynSites[c] {
+		// the handler dispatch: which handlers may run under an exclusive hold without touching the mutex
+		// is decided by rule A2-reentrant; for the held set the dispatch is neutral
+		return lstate{acq: st.acq, rel: st.rel, may: out.may, crel: st.crel, excl: st.excl}
+	}
+	return out
+}
+
+// applyCallees: the state after calling one of the given functions (alternatives).
+func (lm *LockModel) applyCallees(cals []*ssa.Function, st lstate) (lstate, bool) {
 	first := true
 	var acq, rel, may, crel, excl lockSet
 	for _, g := range cals {
@@ -481,14 +508,9 @@ func (lm *LockModel) applyCall(c ssa.CallInstruction, st lstate) lstate {
 		}
 	}
 	if first {
-		return st
+		return st, false
 	}
-	if lm.handlerDynSites[c] {
-		// the handler dispatch: which handlers may run under an exclusive hold without touching the mutex
-		// is decided by rule A2-reentrant; for the held set the dispatch is neutral
-		return lstate{acq: st.acq, rel: st.rel, may: may, crel: st.crel, excl: st.excl}
-	}
-	return lstate{acq: acq, rel: rel, may: may, crel: crel, excl: excl}
+	return lstate{acq: acq, rel: rel, may: may, crel: crel, excl: excl}, true
 }
 
 func (lm *LockModel) analyse(fl *fnLocks) {
@@ -515,7 +537,8 @@ func (lm *LockModel) analyse(fl *fnLocks) {
 	fl.leakAt = map[int]ssa.Instruction{}
 	sawExit := false
 	scopedAll := true
-	var scopedRel lockSet
+	var scopedRel, scopedDirect lockSet
+	var scopedTargets []*ssa.Function
 	for len(work) > 0 {
 		b := work[0]
 		work = work[1:]
@@ -553,8 +576,20 @@ func (lm *LockModel) analyse(fl *fnLocks) {
 		if len(b.Succs) == 0 {
 			if ret, isRet := b.Instrs[len(b.Instrs)-1].(*ssa.Return); isRet {
 				if st.may != 0 {
-					if rs, ok := lm.releaserResult(ret); ok && st.may&^rs == 0 {
+					if rs, tgt, direct, ok := lm.releaserOf(ret); ok && st.may&^rs == 0 {
 						scopedRel |= st.may
+						scopedDirect |= direct
+						if tgt != nil {
+							dup := false
+							for _, t := range scopedTargets {
+								if t == tgt {
+									dup = true
+								}
+							}
+							if !dup {
+								scopedTargets = append(scopedTargets, tgt)
+							}
+						}
 					} else {
 						scopedAll = false
 					}
@@ -625,6 +660,7 @@ func (lm *LockModel) analyse(fl *fnLocks) {
 		return
 	}
 	fl.scoped, fl.scopedRel = scopedAll && scopedRel != 0, scopedRel
+	fl.scopedTargets, fl.scopedDirect = scopedTargets, scopedDirect
 	fl.adds = exitAcq
 	fl.removes = exitRel &^ exitAcq
 	fl.condRemoves = exitCrel &^ exitAcq &^ fl.removes
@@ -635,22 +671,66 @@ func (lm *LockModel) analyse(fl *fnLocks) {
 // releaserResult: the single result of this return is a function value (closure, bound method or function) and the
 // classes it releases when called.
 func (lm *LockModel) releaserResult(ret *ssa.Return) (lockSet, bool) {
-	if len(ret.Results) != 1 {
-		return 0, false
+	set, _, _, ok := lm.releaserOf(ret)
+	return set, ok
+}
+
+// releaserOf: the classes the returned function releases, the package function it is (nil for a raw mutex method), and
+// the classes released directly by a returned mutex.Unlock value.
+func (lm *LockModel) releaserOf(ret *ssa.Return) (lockSet, *ssa.Function, lockSet, bool) {
+	// the result that is a func(): alone, or next to other results (`uk, release := dsc.lockedProducer(key)`)
+	ri := releaserIndex(ret.Parent())
+	if ri < 0 || ri >= len(ret.Results) {
+		return 0, nil, 0, false
 	}
-	sig, ok := ret.Results[0].Type().Underlying().(*types.Signature)
-	if !ok || sig.Params().Len() != 0 || sig.Results().Len() != 0 {
-		return 0, false
+	rv := ret.Results[ri]
+	// a named result assigned in the body
+	if u, ok := rv.(*ssa.UnOp); ok {
+		if al, ok := u.X.(*ssa.Alloc); ok {
+			var only ssa.Value
+			n := 0
+			for _, r := range referrers(al) {
+				if st, ok := r.(*ssa.Store); ok && st.Addr == ssa.Value(al) {
+					n++
+					only = st.Val
+				}
+			}
+			if n == 1 {
+				rv = only
+			}
+		}
 	}
 	var target *ssa.Function
-	switch x := ret.Results[0].(type) {
+	switch x := rv.(type) {
 	case *ssa.MakeClosure:
 		target, _ = x.Fn.(*ssa.Function)
+		// the unlock method of a mutex as a value (`return infoMu.Unlock`): releases the class of the bound mutex
+		if target != nil && target.Synthetic != "" && len(x.Bindings) == 1 && len(target.Blocks) == 1 {
+			for _, in := range target.Blocks[0].Instrs {
+				call, ok := in.(*ssa.Call)
+				if !ok {
+					continue
+				}
+				switch fullCalleeName(call) {
+				case "(*sync.Mutex).Unlock", "(*sync.RWMutex).Unlock", "(*sync.RWMutex).RUnlock":
+					switch r := x.Bindings[0].(type) {
+					case *ssa.FieldAddr:
+						if idx, ok := lm.byVar[fieldOf(r)]; ok {
+							return 1 << uint(idx), nil, 1 << uint(idx), true
+						}
+					case *ssa.Global:
+						if idx, ok := lm.byGlob[r]; ok {
+							return 1 << uint(idx), nil, 1 << uint(idx), true
+						}
+					}
+				}
+			}
+		}
 	case *ssa.Function:
 		target = x
 	}
 	if target == nil {
-		return 0, false
+		return 0, nil, 0, false
 	}
 	if lm.fl[target] == nil && target.Synthetic != "" && len(target.Blocks) == 1 {
 		// bound method wrapper: one call of the method
@@ -662,14 +742,36 @@ func (lm *LockModel) releaserResult(ret *ssa.Return) (lockSet, bool) {
 	}
 	tl := lm.fl[target]
 	if tl == nil {
-		return 0, false
+		return 0, nil, 0, false
 	}
-	return tl.removes | tl.condRemoves, true
+	return tl.removes | tl.condRemoves, target, 0, true
+}
+
+// releaserIndex: the index of the one func() result of fn, -1 if there is none or more than one.
+func releaserIndex(fn *ssa.Function) int {
+	idx := -1
+	res := fn.Signature.Results()
+	for i := 0; i < res.Len(); i++ {
+		if sig, ok := res.At(i).Type().Underlying().(*types.Signature); ok && sig.Params().Len() == 0 && sig.Results().Len() == 0 {
+			if idx >= 0 {
+				return -1
+			}
+			idx = i
+		}
+	}
+	return idx
 }
 
 // scopedOrigin: the called function value is the result of a direct call (possibly kept in a local variable).
 func scopedOrigin(v ssa.Value) *ssa.Function {
 	switch x := v.(type) {
+	case *ssa.Extract:
+		if call, ok := x.Tuple.(*ssa.Call); ok {
+			if g := call.Call.StaticCallee(); g != nil && releaserIndex(g) == x.Index {
+				return g
+			}
+		}
+		return nil
 	case *ssa.Call:
 		return x.Call.StaticCallee()
 	case *ssa.UnOp:
